@@ -240,6 +240,9 @@ func (c *Cond) Wait() {
 	if t == nil {
 		panic("vrt.Cond.Wait outside an execution is not supported")
 	}
+	// a scheduling point BEFORE the caller joins the wait list: whatever it
+	// checked under the lock may change (without the lock) right here
+	Yield()
 	ticket := c.waitSeq
 	c.waitSeq++
 	c.L.Unlock()
@@ -257,6 +260,7 @@ func (c *Cond) Wait() {
 
 //go:norace
 func (c *Cond) Signal() {
+	Yield()
 	c.real.Lock()
 	c.real.Unlock()
 	if c.wakeSeq < c.waitSeq {
@@ -267,6 +271,7 @@ func (c *Cond) Signal() {
 
 //go:norace
 func (c *Cond) Broadcast() {
+	Yield()
 	c.real.Lock()
 	c.real.Unlock()
 	c.wakeSeq = c.waitSeq
